@@ -311,7 +311,40 @@ def g_log_blocks(out):
        witness={'sites': bad}, n=n)
 
 
-GROUPS = {'decoder-tables': g_decoder_tables, 'dispatch': g_dispatch, 'errors': g_errors, 'protocol': g_protocol,
+def g_value_funnel(out):
+    """C14/C10: the payload of a simple value object is assigned in exactly one place, SimpleAsn1Type.__init__ (under
+    contract type.base::SimpleAsn1Type.__init__: stored only after subtypeSpec admitted it); every other way of getting a
+    value object therefore goes through that constructor"""
+    import glob
+    sites, n = [], 0
+    for path in sorted(glob.glob(os.path.join(REPO, 'pyasn1', '**', '*.py'), recursive=True)):
+        rel = os.path.relpath(path, REPO)
+        tree = ast.parse(open(path).read())
+        for cls in [x for x in ast.walk(tree) if isinstance(x, ast.ClassDef)] + [tree]:
+            for fn in [x for x in (cls.body if hasattr(cls, 'body') else []) if isinstance(x, (ast.FunctionDef,))]:
+                for x in ast.walk(fn):
+                    tg = []
+                    if isinstance(x, ast.Assign):
+                        tg = x.targets
+                    elif isinstance(x, (ast.AugAssign, ast.AnnAssign)):
+                        tg = [x.target]
+                    elif isinstance(x, ast.Call) and ast.unparse(x.func) in ('setattr', 'object.__setattr__') and \
+                            len(x.args) >= 2 and isinstance(x.args[1], ast.Constant) and x.args[1].value == '_value':
+                        sites.append('%s:%d %s.%s setattr' % (rel, x.lineno, getattr(cls, 'name', '<module>'), fn.name))
+                    for t in tg:
+                        for y in ast.walk(t):
+                            if isinstance(y, ast.Attribute) and y.attr == '_value' and isinstance(y.ctx, ast.Store):
+                                n += 1
+                                where = '%s.%s' % (getattr(cls, 'name', '<module>'), fn.name)
+                                if not (rel == 'pyasn1/type/base.py' and where == 'SimpleAsn1Type.__init__'):
+                                    sites.append('%s:%d %s' % (rel, y.lineno, where))
+    sites = sorted(set(sites))
+    ob(out, 'frame::types#value-assigned-only-in-init', not sites and n >= 1,
+       '; '.join(sites[:6]) or '%d assignment(s) to ._value in pyasn1/, all in SimpleAsn1Type.__init__' % n,
+       witness={'sites': sites}, n=max(n, 1))
+
+
+GROUPS = {'value-funnel': g_value_funnel, 'decoder-tables': g_decoder_tables, 'dispatch': g_dispatch, 'errors': g_errors, 'protocol': g_protocol,
           'log-blocks': g_log_blocks}
 
 
